@@ -574,6 +574,159 @@ def o_ring_area(mir, tier, seed):
     return dict(theory='Int (unbounded coordinates; ring length concrete 4..6, loops unrolled over the modelled lines() iterator)', functions=['area::twice_signed_ring_area', 'area::twice_signed_ring_area::{closure#0}', 'MapCoords for Line', 'Line::determinant'], paths=npaths, status=st, info=info, model=None, replay=('ring_area', ''))
 
 
+# ---- C15: the interpolation walk for ANY metric space and ANY segment lengths
+
+@obligation('C15', 'linestring_walk_any_metric', 'for line strings of 1, 2 and 3 segments, ANY metric space (segment lengths arbitrary non-negative reals, interpolation uninterpreted) and ANY distance d: point_at_distance_from_start returns the start for d <= 0, otherwise the metric\'s interpolation inside the FIRST segment k whose cumulative length reaches d, at distance d minus the lengths before it, and the end beyond the total length; point_at_distance_from_end is the same walk over the reversed line string; None exactly for an empty line string')
+def o_walk(mir, tier, seed):
+    from mir2smt import SliceIter
+    T = RealTheory()
+    I = r'interpolate_line::<impl at geo/src/algorithm/line_measures/interpolate_line\.rs:\d+:1: \d+:60>::'
+    bad, npaths = [], 0
+    for from_end in (False, True):
+        fn = mir.find('geo', I + ('point_at_distance_from_end' if from_end else 'point_at_distance_from_start'))
+        for nseg in (0, 1, 2, 3):
+            ncoord = 0 if nseg == 0 else nseg + 1
+            pts = [('vertex', i) for i in range(ncoord)]
+            L = [T.var('len%d' % i) for i in range(nseg)]
+            d = T.var('d')
+
+            def seg_index(a, b):
+                i, j = a[1], b[1]
+                return min(i, j)
+
+            def lines(ip, a):
+                return SliceIter([[[pts[i]], [pts[i + 1]]] for i in range(nseg)])      # Line { start: Point-able coord, end }
+
+            def rev_lines(ip, a):
+                return SliceIter([[[pts[i + 1]], [pts[i]]] for i in reversed(range(nseg))])
+
+            def length(ip, a):
+                seg = deref(a[1])
+                return L[seg_index(deref(seg[0])[0], deref(seg[1])[0])]
+
+            def interp(ip, a):
+                return ('interp', deref(a[1]), deref(a[2]), a[3])
+
+            def endpoint(which):
+                def f(ip, a):
+                    seg = deref(a[0])
+                    return ('point-of', deref(seg[which])[0])
+                return f
+
+            def to_point(ip, a):
+                return ('point-of', deref(a[0]))
+            uf = {'re:geo_types::LineString::<\\w+>::lines': lines, 're:geo_types::LineString::<\\w+>::rev_lines': rev_lines,
+                  're:<MetricSpace as (algorithm::)?line_measures::length::Length<\\w+>>::length::<geo_types::Line<\\w+>>': length,
+                  're:<MetricSpace as (algorithm::)?(line_measures::)?interpolate_point::InterpolatePoint<\\w+>>::point_at_distance_between': interp,
+                  're:geo_types::Line::<\\w+>::start_point': endpoint(0), 're:geo_types::Line::<\\w+>::end_point': endpoint(1),
+                  're:geo_types::Point::<\\w+>': to_point}
+            ip = Interp(mir, T, EXTRA, uf)
+            ls = [list(pts)]
+            outs = ip.call_fn(fn, [Ref(lambda ls=ls: ls), ('metric-space',), d], z3.BoolVal(True))
+            npaths += len(outs)
+            assume = [x >= 0 for x in L]
+            order = list(range(nseg)) if not from_end else list(reversed(range(nseg)))
+            first_pt = (pts[0] if pts else None) if not from_end else (pts[-1] if pts else None)
+            last_pt = (pts[-1] if pts else None) if not from_end else (pts[0] if pts else None)
+            cases = [z3.Not(z3.Or([pc for pc, _ in outs]))]
+            for pc, res in outs:
+                res = deref(res)
+                if nseg == 0:
+                    cases.append(pc if not variant_is(res, 'None') else z3.BoolVal(False))
+                    continue
+                if not variant_is(res, 'Some'):
+                    cases.append(pc)
+                    continue
+                v = deref(res.fields[0])
+                if isinstance(v, list) and len(v) == 1 and isinstance(deref(v[0]), tuple) and deref(v[0])[0] == 'vertex':
+                    v = ('point-of', deref(v[0]))          # Point(coord) built directly from a vertex
+                if isinstance(v, tuple) and v[0] == 'point-of':
+                    # an end point of the line string: must be the clamped case
+                    total = sum(L)
+                    if v[1] == first_pt:
+                        cases.append(z3.And(pc, z3.Not(d <= 0)))
+                    elif v[1] == last_pt:
+                        cases.append(z3.And(pc, z3.Not(d > total)))
+                    else:
+                        cases.append(pc)
+                elif isinstance(v, tuple) and v[0] == 'interp':
+                    a0, b0, dist = v[1], v[2], v[3]
+                    a0 = a0[1] if isinstance(a0, tuple) else a0
+                    b0 = b0[1] if isinstance(b0, tuple) else b0
+                    k = seg_index(a0, b0)
+                    pos = order.index(k)
+                    before = sum(L[i] for i in order[:pos]) if pos else T.const(0)
+                    direction_ok = (a0[1] < b0[1]) != from_end
+                    want = z3.And(d > 0, before < d, d <= before + L[k], dist == d - before)
+                    cases.append(pc if not direction_ok else z3.And(pc, z3.Not(want)))
+                else:
+                    cases.append(pc)
+            bad.append(z3.And(assume + [z3.Or(cases)]))
+    st, info, model = check_unsat('linestring_walk_any_metric', [z3.Or(bad)])
+    return dict(theory='Real; segment lengths and the metric\'s interpolation uninterpreted; lines() / rev_lines() modelled as the (reversed) consecutive pairs', functions=['InterpolatableLine for LineString: point_at_distance_from_start, point_at_distance_from_end'], paths=npaths, status=st, info=info, model=None, replay=('linestring_walk', ''))
+
+
+# ---- C12: Line::closest_point over the reals
+
+@obligation('C12', 'line_closest_point_real', 'for ALL real lines [a,b] and points p: Line::closest_point is Indeterminate exactly for a zero-length line; otherwise it returns a point c = a + clamp(t,0,1)(b-a) whose squared distance to p is the exact squared distance from p to the segment; it is Intersection exactly when p lies on the segment (and then c = p), SinglePoint otherwise (Euclidean length uninterpreted with h >= 0, h^2 = dx^2+dy^2; the on-segment predicate it consults is C02/C03\'s subject and enters as its exact definition)')
+def o_closest(mir, tier, seed):
+    T = RealTheory()
+    assumptions = []
+    a, b, p = coord(T, 'a'), coord(T, 'b'), coord(T, 'p')
+    dx, dy = b[0] - a[0], b[1] - a[1]
+    L = dx * dx + dy * dy
+    t = (p[0] - a[0]) * dx + (p[1] - a[1]) * dy
+    cross = dx * (p[1] - a[1]) - dy * (p[0] - a[0])
+    on = z3.And(cross == 0, t >= 0, t <= L)
+    h = T.var('length')
+    assumptions += [h >= 0, h * h == L]
+
+    def length(ip, d):
+        return h
+
+    def intersects(ip, d):
+        return ('fork', [(on, True), (z3.Not(on), False)])
+
+    def ident(ip, d):
+        return d[0]
+
+    def to_point(ip, d):
+        return [d[0]]
+
+    def pair_to_coord(ip, d):
+        return d[0]
+    uf = {'re:<euclidean::Euclidean as (algorithm::)?line_measures::length::Length<\\w+>>::length::<geo_types::Line<\\w+>>': length,
+          're:<geo_types::Line<\\w+> as (algorithm::)?intersects::Intersects<geo_types::Point<\\w+>>>::intersects': intersects,
+          're:<geo_types::Coord<\\w+> as Into<geo_types::Point<\\w+>>>::into': to_point,
+          're:<\\(\\w+, \\w+\\) as Into<geo_types::Coord<\\w+>>>::into': pair_to_coord}
+    extra = dict(EXTRA)
+    extra[r'geo_types::Point::<\w+>::dot'] = ('geo_types', r'geometry::point::<impl at [^>]*>::dot')
+    extra[r'geo_types::Point::<\w+>::x'] = ('geo_types', r'geometry::point::<impl at [^>]*>::x')
+    extra[r'geo_types::Point::<\w+>::y'] = ('geo_types', r'geometry::point::<impl at [^>]*>::y')
+    extra[r'geometry::point::Point::<\w+>::x'] = ('geo_types', r'geometry::point::<impl at [^>]*>::x')
+    extra[r'geometry::point::Point::<\w+>::y'] = ('geo_types', r'geometry::point::<impl at [^>]*>::y')
+    ip = Interp(mir, T, extra, uf)
+    fn = mir.find('geo', r'closest_point::<impl at [^>]*>::closest_point', sig=r'_1: &geo_types::Line<')
+    outs = ip.call_fn(fn, [Ref(lambda: [a, b]), Ref(lambda: [p])], z3.BoolVal(True))
+    sq = lambda u, v: (u[0] - v[0]) * (u[0] - v[0]) + (u[1] - v[1]) * (u[1] - v[1])
+    bad = [z3.Not(z3.Or([pc for pc, _ in outs]))]
+    for pc, res in outs:
+        res = deref(res)
+        if variant_is(res, 'Indeterminate'):
+            bad.append(z3.And(pc, L != 0))
+            continue
+        if not (variant_is(res, 'Intersection') or variant_is(res, 'SinglePoint')):
+            raise Untranslatable('closest_point returned %r' % (res,))
+        c = deref(deref(res.fields[0])[0])
+        d2 = sq(c, p)
+        exact = z3.If(t <= 0, d2 == sq(p, a), z3.If(t >= L, d2 == sq(p, b), d2 * L == cross * cross))
+        kind_ok = on if res.variant == 'Intersection' else z3.Not(on)
+        payload = z3.And(c[0] == p[0], c[1] == p[1]) if res.variant == 'Intersection' else z3.BoolVal(True)
+        bad.append(z3.And(pc, z3.Or(L == 0, z3.Not(exact), z3.Not(kind_ok), z3.Not(payload))))
+    st, info, model = check_unsat('line_closest_point_real', assumptions + [z3.Or(bad)], timeout_s=30)
+    return dict(theory='Real (nonlinear); Euclidean length = h with h >= 0, h^2 = dx^2 + dy^2; Line.intersects(Point) = its exact definition', functions=['ClosestPoint for Line', 'Point::dot'], paths=len(outs), status=st, info=info, model=None, replay=('line_closest_point', ''))
+
+
 # ---- C05 kernels
 
 @obligation('C05', 'line_determinant_int', 'for ALL integers: Line::determinant() = start.x*end.y - start.y*end.x (the shoelace term)')
